@@ -165,8 +165,14 @@ func (f *frame) specExpr(e SExpr, env *specEnv) sval {
 		base := f.specExpr(x.X, env)
 		idx := f.specIndexVal(x.I, env)
 		if base.typ == nil && base.e != nil && base.e.Sort().IsArray() {
-			// a ghost sequence (SMT array value)
-			return sval{e: Select(base.e, idx), typ: types.Typ[types.Uint8]}
+			// a ghost sequence (SMT array value): bytes (gs_) or integers (gi_)
+			et := types.Type(types.Typ[types.Uint8])
+			if a, ok := base.e.(*App); ok && a.Op == "select" {
+				if c, ok := a.Args[0].(*Cell); ok && strings.Contains(c.Name, "H_$gi_") {
+					et = types.Typ[types.Int]
+				}
+			}
+			return sval{e: Select(base.e, idx), typ: et}
 		}
 		mem, ptr, elem := f.specElems(base, env)
 		return sval{e: Select(mem, th.AIdx(ptr, idx)), typ: elem}
@@ -448,6 +454,11 @@ func (f *frame) specLvals(e SExpr, env *specEnv) []*lval {
 		// a named ghost byte sequence of an object: Gs_name(x) as an lvalue, gs_name(x)[i] as a value
 		v := f.specExpr(c.Args[0], env)
 		return []*lval{{kind: lvField, heap: t.ghost("gs_"+strings.TrimPrefix(c.Fun, "Gs_"), ArrayOf(SInt, SInt)), idx: v.e}}
+	}
+	if c, ok := e.(*SCall); ok && strings.HasPrefix(c.Fun, "Gi_") && len(c.Args) == 1 {
+		// a named ghost integer sequence of an object (positions, lengths: no element range)
+		v := f.specExpr(c.Args[0], env)
+		return []*lval{{kind: lvField, heap: t.ghost("gi_"+strings.TrimPrefix(c.Fun, "Gi_"), ArrayOf(SInt, SInt)), idx: v.e}}
 	}
 	if c, ok := e.(*SCall); ok && strings.HasPrefix(c.Fun, "Gh_") && len(c.Args) == 1 {
 		// a named ghost integer of an object: Gh_name(x) as an lvalue, gh_name(x) as a value
@@ -738,6 +749,9 @@ func (f *frame) specCall(x *SCall, env *specEnv) sval {
 		_, ptr, _ := f.specElems(base, env)
 		return sval{e: th.AIdx(ptr, f.specIndexVal(x.Args[1], env)), typ: intT}
 	}
+	if strings.HasPrefix(x.Fun, "gi_") && len(x.Args) == 1 {
+		return sval{e: Select(f.specCell(t.ghost(x.Fun, ArrayOf(SInt, SInt)), env), arg(0).e)}
+	}
 	if strings.HasPrefix(x.Fun, "gs_") && len(x.Args) == 1 {
 		return sval{e: Select(f.specCell(t.ghost(x.Fun, ArrayOf(SInt, SInt)), env), arg(0).e)}
 	}
@@ -892,6 +906,10 @@ func (f *frame) specCall(x *SCall, env *specEnv) sval {
 				continue
 			}
 			v := arg(i)
+			underOld := false
+			if c, ok := x.Args[i].(*SCall); ok && c.Fun == "old" {
+				underOld = true // old(s) as a sequence argument: the entry-state memory, not only the old header
+			}
 			if sig.Args[j].IsArray() && v.typ != nil {
 				isSeq := false
 				switch u := v.typ.Underlying().(type) {
@@ -901,7 +919,10 @@ func (f *frame) specCall(x *SCall, env *specEnv) sval {
 					_, isSeq = u.Elem().Underlying().(*types.Array)
 				}
 				if isSeq {
+					saved := env.inOld
+					env.inOld = env.inOld || underOld
 					mem, ptr, _ := f.specElems(v, env)
+					env.inOld = saved
 					args = append(args, mem, ptr)
 					j += 2
 					continue
